@@ -696,6 +696,8 @@ num-traits = { version = "0.2", default-features = false }
         src.append("pub fn __root_validate__%s() { r(<%s as FlatValidate>::validate); r(<%s as FlatValidate>::from_bytes); "
                    "r(<%s as FlatValidate>::from_mut_bytes); }\n" % (nm, X, X, X))
         src.append("pub fn __root_size__%s() { r(<%s as FlatBase>::size); }\n" % (nm, X))
+        if t.defn is not None and t.defn.generic and not t.sized:
+            src.append("pub fn __root_view__%s() { r(<%s as FlatUnsized>::ptr_from_bytes); r(<%s as FlatUnsized>::ptr_to_bytes); }\n" % (nm, X, X))
         if t.default:
             src.append("pub fn __root_default__%s() { r(<%s as flatty::FlatDefault>::default_in_place); }\n" % (nm, X))
         for i, e in enumerate(t.emplacers):
